@@ -123,6 +123,8 @@ def run(prop, tier):
                 v["_interp"], v["_hashseed"] = j["interp"], j["hashseed"]
                 viols.append(v)
 
+    hubutil.dump_digests(prop, [(run["run"], "%d/%s" % (run["tested"], json.dumps(run["verdicts"], sort_keys=True)))
+                                for j, r in zip(jobs, results) if j["kind"] == "batch" for run in r["runs"]])
     exit_code = 0
     seen_known = {}
     new = {}
